@@ -135,3 +135,14 @@ Definition graph_ok (c : list Z) : bool :=
     end
   end.
 Definition check_graph := mismatches graph_ok.
+
+(* ---- purity classifier cases: (tree, result of the Go function);
+   identifiers 0,1,2 are the unbound ones (harness: nUnbound = 3) ---- *)
+From V Require Import C04.Purity.
+Definition harness_unbound (r : nat) : bool := Nat.ltb r 3.
+Definition expr_ok (c : node * bool) : bool := Bool.eqb (can_remove harness_unbound (fst c)) (snd c).
+Definition check_expr := mismatches expr_ok.
+Definition stmts_ok (c : bool * bool * list node * bool) : bool :=
+  let '(keep, ret, l, got) := c in Bool.eqb (stmts_can_remove harness_unbound keep ret l) got.
+Definition check_stmts := mismatches stmts_ok.
+Definition check_class := mismatches expr_ok.
